@@ -107,8 +107,32 @@ func C18_AllRoutes() {
 	if plan.writes > 0 {
 		verif.Reach("write-fault-injected")
 		verif.Assert(errOutcome, "a request whose storage write failed ends with an error outcome, not a success response")
-		for _, a := range f.a {
-			verif.Assert(!f.issuedTo(a.pid), "no session is issued by a request whose storage write failed")
+	}
+	// no session on the strength of a one-time credential whose consumption was not saved: if
+	// the session was issued, the credential that justified it is spent in the post-store
+	for _, a := range f.a {
+		if !f.issuedTo(a.pid) {
+			continue
+		}
+		post := f.w.Store.Get(a.pid)
+		switch route {
+		case "POST /otp/login":
+			for _, o := range a.otps {
+				verif.Assert(verif.Implies(v.Password == o, !strings.Contains(post.OTPs, hashOTP(o))), "a session issued by a one-time password implies that password is spent in storage")
+			}
+		case "POST /2fa/totp/validate", "POST /2fa/sms/validate":
+			if a.hasCodes {
+				pre := strings.Split(a.u.RecoveryCodes, ",")
+				for i, c := range a.codes {
+					verif.Assert(verif.Implies(verif.And(v.RecoveryCode != "", v.RecoveryCode == c), !strings.Contains(post.RecoveryCodes, pre[i])), "a session issued by a recovery code implies that code is spent in storage")
+				}
+			}
+			if route == "POST /2fa/totp/validate" && v.RecoveryCode == "" {
+				lc := f.w.Store.GetRec(a.pid).(interface{ GetTOTPLastCode() string }).GetTOTPLastCode()
+				verif.Assert(lc == v.Code, "a session issued by a TOTP code implies the code is recorded as used (replay guard saved)")
+			}
+		case "POST /recover/end":
+			verif.Assert(post.RecoverSelector == "", "a session issued by a recovery token implies the token is spent in storage")
 		}
 	}
 	if errOutcome {
